@@ -420,6 +420,14 @@ class LibMap:
         f = "vf_set_%s_" % tag
         if name in ("size", "empty", "clear"):
             return "%s%s(%s)" % (f, name, p)
+        if name == "insert" and len(args) == 1 and skip(args[0]).get("kind") == "CXXStdInitializerListExpr":
+            # s.insert({e0, e1, ...}): one insert per item of the braced list, in order
+            lst = skip(args[0])
+            while lst.get("kind") != "InitListExpr" and lst.get("inner"):
+                lst = lst["inner"][0]
+            if lst.get("kind") != "InitListExpr" or not lst.get("inner"):
+                raise Unsupported("set insert of an initializer list that is not a non-empty braced list")
+            return "(%s)" % ", ".join("%sinsert(%s, %s)" % (f, p, em.E(c)) for c in lst["inner"])
         if name in ("find", "count", "contains", "erase", "insert", "emplace") and len(args) == 1:
             nm = "insert" if name == "emplace" else name
             return "%s%s(%s, %s)" % (f, nm, p, em.E(args[0]))
